@@ -551,6 +551,17 @@ def _is_date_stamp(mod, node):
         v = st.targets[0].id
         fn = mod.enclosing_function(st)
         uses = [u for u in ast.walk(fn) if isinstance(u, ast.Name) and u.id == v and isinstance(u.ctx, ast.Load)] if fn is not None else []
+        if fn is not None and uses:
+            # only the reads this assignment reaches (the name may hold other values elsewhere in the function)
+            from ..dataflow import ReachingDefs
+
+            rd_ = ReachingDefs(fn)
+            reached = []
+            for u in uses:
+                us = rd_.stmt_of(u)
+                if us is not None and any(d.stmt is st for d in rd_.defs(v, us)):
+                    reached.append(u)
+            uses = reached
         ok = bool(uses)
         for u in uses:
             us = u
